@@ -4,10 +4,11 @@ import CpModel.Unrepr
   Line-protocol syntax for `Unrepr.PyAst` / `Unrepr.PyVal` (driver only; no theorem refers to this).
 
   ast  = c<lit> | L(ast,…) | U(ast,…) | S(ast,…) | D(k,v,k,v,…) | u<-|+|!|~>(ast) | o<+|-|*|/>(ast,ast)
-       | n<text> | a<text>(ast) | C(func,arg,…) | X<text>
+       | n<text> | a<text>(ast) | C(func,arg,…) | B(ast,ast) | X<text>
+  arg  = ast | R(ast)  (`*x`) | K<text>(ast)  (`name=x`) | W(ast)  (`**x`)
   lit  = N | T | F | i<nat> | f<nat> | j<nat> | s<text> | b<text>
   val  = N | T | F | i<int> | f<int> | x<int>:<int> | s<text> | b<text> | L(val,…) | U(val,…) | D(k,v,…)
-       | O<text>/<text>/…
+       | O<text>/<text>/… | A(O<path>,L(args…),D(name,val,…))
   text = `Proto.text` (decimal code points joined by `.`, `-` = empty); env = `-` | path;path;…  (path = text/text/…)
 -/
 namespace CpModel.UnreprIO
@@ -43,6 +44,26 @@ def parseA : Nat → List Char → Option (PyAst × List Char)
       match parseArgs fuel rest with
       | some (f :: args, r) => some (.call f args, r)
       | _ => none
+    | 'B' :: '(' :: rest =>
+      match parseArgs fuel rest with
+      | some ([v, i], r) => some (.subscript v i, r)
+      | _ => none
+    | 'R' :: '(' :: rest =>
+      match parseArgs fuel rest with
+      | some ([e], r) => some (.starred e, r)
+      | _ => none
+    | 'W' :: '(' :: rest =>
+      match parseArgs fuel rest with
+      | some ([e], r) => some (.kwsplat e, r)
+      | _ => none
+    | 'K' :: rest =>
+      let (atom, rest') := takeAtom rest
+      match text? atom, rest' with
+      | some t, '(' :: r =>
+        match parseArgs fuel r with
+        | some ([e], r2) => some (.keyword t e, r2)
+        | _ => none
+      | _, _ => none
     | 'u' :: op :: '(' :: rest =>
       let o : Option UOp := if op = '-' then some .usub else if op = '+' then some .uadd
         else if op = '!' then some .not else if op = '~' then some .invert else none
@@ -117,6 +138,10 @@ def parseV : Nat → List Char → Option (PyVal × List Char)
     | 'L' :: '(' :: rest => (parseVs fuel rest).map fun (xs, r) => (.list xs, r)
     | 'U' :: '(' :: rest => (parseVs fuel rest).map fun (xs, r) => (.tuple xs, r)
     | 'D' :: '(' :: rest => (parseVs fuel rest).map fun (xs, r) => (.dict xs, r)
+    | 'A' :: '(' :: rest =>
+      match parseVs fuel rest with
+      | some ([.obj p, .list args, .dict kws], r) => some (.applied p args kws, r)
+      | _ => none
     | _ => none
 
 def parseVs : Nat → List Char → Option (List PyVal × List Char)
@@ -160,6 +185,10 @@ def showAst : PyAst → String
   | .name id => "n" ++ Proto.text id
   | .attr e a => "a" ++ Proto.text a ++ "(" ++ showAst e ++ ")"
   | .call f args => "C(" ++ showAst f ++ (if args.isEmpty then "" else "," ++ showAsts args) ++ ")"
+  | .starred e => "R(" ++ showAst e ++ ")"
+  | .keyword n e => "K" ++ Proto.text n ++ "(" ++ showAst e ++ ")"
+  | .kwsplat e => "W(" ++ showAst e ++ ")"
+  | .subscript v i => "B(" ++ showAst v ++ "," ++ showAst i ++ ")"
   | .other cls => "X" ++ Proto.text cls.toList
 
 def showAsts : List PyAst → String
@@ -177,6 +206,7 @@ def showVal : PyVal → String
   | .tuple xs => "U(" ++ showVals xs ++ ")"
   | .dict xs => "D(" ++ showVals xs ++ ")"
   | .obj p => "O" ++ "/".intercalate (p.map Proto.text)
+  | .applied p args kws => "A(O" ++ "/".intercalate (p.map Proto.text) ++ ",L(" ++ showVals args ++ "),D(" ++ showVals kws ++ "))"
 
 def showVals : List PyVal → String
   | [] => ""
@@ -189,6 +219,8 @@ def showErr : Unrepr.Err → String
   | .unresolvedName => "unresolvedName"
   | .attributeError => "attributeError"
   | .typeError => "typeError"
+  | .indexError => "other:IndexError"
+  | .keyError => "other:KeyError"
   | .notModelled => "notModelled"
 
 end CpModel.UnreprIO
